@@ -504,6 +504,15 @@ class Analyzer:
                     return Pred(("cmp", op, l, r))
                 if isinstance(l, Pred) and isinstance(r, Poly) and op in (">", "!=") and r == Poly.const(0):
                     return l
+                # a bit test compared with zero, either way round: (x & m) != 0, 0 != (x & m), (x & m) > 0 are the test;
+                # (x & m) == 0 is its negation
+                for a, b, o in ((l, r, op), (r, l, {"<": ">", ">": "<", "<=": ">=", ">=": "<="}.get(op, op))):
+                    if (isinstance(a, tuple) or isinstance(a, Pred)) and isinstance(b, Poly) and b == Poly.const(0):
+                        pa = self.as_pred(a)
+                        if pa is not None and o in ("!=", ">"):
+                            return pa
+                        if pa is not None and o == "==":
+                            return p_not(pa)
                 return None
             if op == "+":
                 if isinstance(l, Ptr) and isinstance(r, Poly):
@@ -569,6 +578,13 @@ class Analyzer:
                 return c if ea["b"] else p_not(c)   # (x ? true : false) is x
             a = self.ev(fn, st, e["a"])
             b = self.ev(fn, st, e["e"])
+            # an arm the interpreter has no value for (the result of a library call) is an unknown integer: the selection as a
+            # whole is then an unknown that later guards can still bound (`x = c ? f(..) : byte; if (x > max) throw;`)
+            scalar = not any(z in (e.get("t") or "") for z in ("*", "std::", "double", "float"))
+            if a is None and scalar and isinstance(b, Poly):
+                a = Poly.sym(self.fresh("callv"))
+            if b is None and scalar and isinstance(a, Poly):
+                b = Poly.sym(self.fresh("callv"))
             if isinstance(a, Poly) and isinstance(b, Poly):
                 if a == b:
                     return a
